@@ -24,6 +24,10 @@ Pipeline (model-based; the TLA+ specification decides):
      RADAU: spec/tableaux/TableauxRADAU.tla brackets the nodes c_1 < c_2 (roots of 10c^2 - 8c + 1) to 1e-30; every Newton iteration's three
      evaluation times (time-dependent problems y_k' = t^k and t^k - y_k, three steps, both directions) must be x_n + c_i h; y' = t^k, k <= 4,
      must be integrated exactly (numeric allowance).  A run whose call pattern cannot be interpreted is skipped and counted as drift.
+     RADAU Pade clause: adaptive runs (low-level and solve_ivp) on y' = lambda y with the exact Jacobian, lambda in {-1, -5, 2 (backward), 1, -1
+     (backward)} and seed-dependent values, rtol 1e-3..1e-8, atol = rtol and rtol/1000: for EVERY accepted step y_new/y_old must equal
+     R(h lambda) = (1 + 2z/5 + z^2/20)/(1 - 3z/5 + 3z^2/20 - z^3/60) (proved to be the (2,3) Pade approximant of exp in TableauxRADAU.tla) to
+     1.2e-10 relative; the runs must contain steps of unchanged length (kept Jacobian/factorisation), otherwise the probe reports itself as not exercised.
   thorough adds: every canary, every negative fact once more as an invariant of its own, estimator sums over all stage pairs.
 """
 import concurrent.futures
@@ -66,7 +70,9 @@ ASSUMPTIONS = [
     "does not fit it is skipped as drift",
     "rejection probes: the accepted attempt is taken to be the last n calls before the callback that follows it; a run that does not decompose into "
     "accepted steps and rejected attempts of the known lengths is skipped as drift",
-    "NOT decided: Radau's order conditions and Pade clause, 'accepted steps grow like tol^(-1/q)' (numeric); BDF is not covered",
+    "RADAU Pade clause: decided on linear scalar problems y' = lambda y with the exact Jacobian only (Newton is then exact); h is taken as the difference of "
+    "the accepted abscissae; allowance 2^19 * 2^-52 = 1.2e-10 relative; 'fast path exercised' is inferred from accepted steps of unchanged length",
+    "NOT decided: Radau's order conditions for general right-hand sides, 'accepted steps grow like tol^(-1/q)' (numeric); BDF is not covered",
 ]
 
 TRUSTED = [
@@ -662,6 +668,61 @@ def radau_jobs():
     return jobs
 
 
+# ---- adaptive runs on y' = lambda y with the exact Jacobian: every accepted step multiplies y by R(h lambda)
+PADE_BOUND = 2 ** 19         # units of 2^-52 relative, i.e. 1.2e-10 (largest deviation seen on the intended code: 9e-13)
+PADE_CASES = [(-1.0, 0.0, 10.0), (-5.0, 0.0, 4.0), (2.0, 5.0, 0.0), (1.0, 0.0, 3.0), (-1.0, 0.0, -3.0)]     # lambda, x0, xend
+PADE_RTOLS = (1e-3, 1e-5, 1e-6, 1e-7, 1e-8)
+
+
+def pade_jobs(seed):
+    cases = [(lam, x0, x1, rtol, atol) for lam, x0, x1 in PADE_CASES for rtol in PADE_RTOLS for atol in (rtol, rtol * 1e-3)]
+    x = (seed * 0x9E3779B97F4A7C15 + 0xC02) & (2 ** 64 - 1)
+    for _ in range(6):                                   # seed-dependent extra cases
+        x = (x * 6364136223846793005 + 1442695040888963407) & (2 ** 64 - 1)
+        lam, x0, x1 = PADE_CASES[(x >> 60) % len(PADE_CASES)]
+        u, v = ((x >> 11) & 0xFFFFF) / 2 ** 20, ((x >> 31) & 0xFFFFF) / 2 ** 20
+        rtol = 10.0 ** (-3 - 5 * u)
+        cases.append((lam * (0.5 + v), x0, x1, rtol, rtol * 10.0 ** (-3 * v)))
+    jobs = []
+    for lam, x0, x1, rtol, atol in cases:
+        for api in ("lowlevel", "solve_ivp"):
+            jobs.append({"id": "pade/%r/%r/%r/%r/%s" % (lam, x1, rtol, atol, api), "kind": "pade", "resp": "lin", "api": api, "method": "RADAU",
+                         "dirname": "fwd" if x1 > x0 else "bwd", "lam": tok(lam), "x0": tok(x0), "xend": tok(x1), "rtol": tok(rtol), "atol": [tok(atol)],
+                         "case": "lambda=%r [%r,%r] rtol=%.3g atol=%.3g" % (lam, x0, x1, rtol, atol)})
+    return jobs
+
+
+def facts_from_pade(facts, job, rec):
+    """One record per run: the worst accepted step.  Returns (steps, steps of the same length as their predecessor)."""
+    m, dn, via = "RADAU", job["dirname"], "pade/" + job["api"]
+    if rec.get("panic") or rec.get("error") or (rec.get("result") or {}).get("status") != "Success":
+        facts.add(m, "pade_run", dn, via, CAP, 0, got="%s: %s" % (job["case"], rec.get("panic") or rec.get("error") or (rec.get("result") or {}).get("status")),
+                  want="status Success")
+        return 0, 0
+    ts, ys = [untok(v) for v in rec["t"]], [untok(v) for v in rec["y"]]
+    lam = F(untok(job["lam"]))
+    if not _finite(ts + ys) or any(y == 0 for y in ys):
+        facts.add(m, "pade_run", dn, via, CAP, 0, got="%s: non-finite or vanishing solution values" % job["case"], want="finite non-zero values")
+        return 0, 0
+    worst, where, hs = 0, None, []
+    xs = max(abs(F(t)) for t in ts)
+    for i in range(1, len(ts)):
+        if ts[i] == ts[i - 1]:
+            continue
+        h = F(ts[i]) - F(ts[i - 1])
+        hs.append(h)
+        got, want = F(ys[i]) / F(ys[i - 1]), tg.radau_stability(lam * h)
+        rel = abs(got - want) / abs(want)
+        dist = min(CAP, math.ceil(rel * 2 ** 52))
+        if dist >= worst:
+            worst, where = dist, "step %d of %d (x=%r, h=%.6g, h*lambda=%.6g): y_new/y_old = %.17g, R(h lambda) = %.17g, relative deviation %.3g" % (
+                i, len(ts) - 1, ts[i - 1], float(h), float(lam * h), float(got), float(want), float(rel))
+    same = sum(1 for a, b in zip(hs, hs[1:]) if abs(a - b) <= 2 * ulp_of(xs))
+    facts.add(m, "pade_ratio", dn, via, worst, PADE_BOUND, got="%s: %s" % (job["case"], where),
+              want="every accepted step multiplies y by the (2,3) Pade approximant R(h lambda)")
+    return len(hs), same
+
+
 def facts_from_radau(facts, job, rec, notes):
     """Every Newton iteration of RADAU evaluates f at x_n + c_1 h, x_n + c_2 h, x_n + h: the three abscissae must be the Radau IIA nodes
     (spec/tableaux/TableauxRADAU.tla).  Other evaluations (f0, finite-difference Jacobian, error estimate) happen at x_n; f(x_n + h, .)
@@ -825,11 +886,11 @@ def run(tier, seed, replay=None, keep=False):
                  f"{ap['canaries_refuted']}/{ap['canaries']} false identities refuted ({time.time()-t0:.1f}s)")
         # 3. extraction from the real code
         # the harness is (re)built against the working tree by vlib.run_bin -> ensure_harness() inside run_probe
-        jobs = unit_jobs(methods, []) + est_jobs(methods, tier) + landing_jobs(methods) + reject_jobs(methods) + (radau_jobs() if radau else [])
+        jobs = unit_jobs(methods, []) + est_jobs(methods, tier) + landing_jobs(methods) + reject_jobs(methods) + (radau_jobs() + pade_jobs(seed) if radau else [])
         recs = run_probe(jobs, work, "c02")
         facts = Facts(PROP)
         drift = []
-        probe_notes, probes_skipped, rejections_seen, radau_triples = [], 0, 0, 0
+        probe_notes, probes_skipped, rejections_seen, radau_triples, pade_steps, pade_same = [], 0, 0, 0, 0, 0
         cal = calibrate(jobs, recs)
         for (m, dn), why in sorted(cal.items()):
             if why:
@@ -854,6 +915,10 @@ def run(tier, seed, replay=None, keep=False):
                     rejections_seen += nrej
                     if nrej == 0:
                         probe_notes.append(f"{j['id']}: no rejection was provoked (the accepted step was still checked)")
+            elif j["kind"] == "pade":
+                ns_, same_ = facts_from_pade(facts, j, recs[j["id"]])
+                pade_steps += ns_
+                pade_same += same_
             elif j["kind"] == "radau":
                 ntr = facts_from_radau(facts, j, recs[j["id"]], probe_notes)
                 if ntr is None:
@@ -873,6 +938,9 @@ def run(tier, seed, replay=None, keep=False):
         n_new, n_known = vlib.report(PROP, viols)
         for d in drift:
             vlib.log("[C02] drift: " + d)
+        if radau and pade_same == 0:
+            probe_notes.append("RADAU Pade probe: no accepted step had the same length as its predecessor, i.e. the path that keeps the Jacobian and the "
+                               "factorisation (step ratio in (1, 1.2)) was NOT exercised by these runs")
         for d in probe_notes:
             vlib.log("[C02] DRIFT probe not interpretable / not exercised: " + d)
         # evidence
@@ -900,6 +968,8 @@ def run(tier, seed, replay=None, keep=False):
             "states": r.distinct, "transitions": r.generated, "traces_validated_against_impl": len(jobs),
             "probe_runs": len(jobs), "source_constants_compared": sum(len(s) for s in src_seen.values()),
             "rejected_attempts_observed": rejections_seen, "radau_stage_triples_checked": radau_triples,
+            "radau_pade_steps_checked": pade_steps, "radau_pade_steps_with_unchanged_length": pade_same,
+            "radau_fast_path_exercised": bool(pade_same),
             "probes_skipped_uninterpretable": probes_skipped, "probe_notes": probe_notes[:10],
             "controller_calibrations": len(cal), "controller_model_mismatch": sum(1 for v in cal.values() if v),
             "controller_model_mismatch_notes": [f"{m}/{dn}: {why}" for (m, dn), why in sorted(cal.items()) if why],
